@@ -1,4 +1,4 @@
-"""C06 -- signature changes keep calls bound to the same values (R06.1-R06.12)."""
+"""C06 -- signature changes keep calls bound to the same values (R06.1-R06.13)."""
 from __future__ import annotations
 
 import ast
@@ -309,6 +309,7 @@ def check(ctx, res) -> None:
 
     memo_key_rule(ctx, res, "R06.11", ("rope.refactor.change_signature", "rope.refactor.functionutils"))
     _surplus_positionals_rule(ctx, res)
+    _mapping_key_is_a_name_rule(ctx, res)
 
 
 def _surplus_positionals_rule(ctx, res) -> None:
@@ -337,3 +338,44 @@ def _surplus_positionals_rule(ctx, res) -> None:
                 "`scale=1` in front of `*rest`, the call `total(1, 2, 3)` is left as it is and 2 is bound to `scale` instead of `rest` -- the program computes another "
                 "result without any error", function=f.qualname)
     res.floor("R06.12", "early exits of the positional loop", n, 1)
+
+
+def _mapping_key_is_a_name_rule(ctx, res) -> None:
+    """R06.13 (sibling agreement): the argument changers edit a call's mapping `mapping.param_dict`, keyed by parameter NAME.
+    `definition_info.args_with_defaults` is a list of (name, default) pairs.  Every key a changer uses with `param_dict`
+    (membership test, subscript, del) that is read off that list is the NAME component of the pair at the changer's own
+    position: `args_with_defaults[<index>][0]` -- two subscripts.  One subscript yields a pair, which is never a key of the
+    mapping: the update silently does nothing."""
+    idx = ctx.idx
+    n = 0
+    for c in sorted(idx.classes.values(), key=lambda c: c.qualname):
+        if c.unit.modname != "rope.refactor.change_signature":
+            continue
+        m = c.methods.get("change_argument_mapping")
+        if m is None:
+            continue
+        # locals read off args_with_defaults: name -> number of subscripts applied
+        depth = {}
+        for x in walk_local(m.node):
+            if isinstance(x, ast.Assign) and len(x.targets) == 1 and isinstance(x.targets[0], ast.Name):
+                k, v = 0, x.value
+                while isinstance(v, ast.Subscript):
+                    k, v = k + 1, v.value
+                if isinstance(v, ast.Attribute) and v.attr == "args_with_defaults" and k:
+                    depth[x.targets[0].id] = (k, x)
+        for x in walk_local(m.node):
+            keys = []
+            if isinstance(x, ast.Compare) and len(x.ops) == 1 and isinstance(x.ops[0], (ast.In, ast.NotIn)) and isinstance(x.comparators[0], ast.Attribute) and x.comparators[0].attr == "param_dict":
+                keys.append(x.left)
+            if isinstance(x, ast.Subscript) and isinstance(x.value, ast.Attribute) and x.value.attr == "param_dict":
+                keys.append(x.slice)
+            for k in keys:
+                if isinstance(k, ast.Name) and k.id in depth:
+                    n += 1
+                    d, src = depth[k.id]
+                    res.add("R06.13", f"{c.name}.change_argument_mapping|key-is-the-name:{k.id}@{x.lineno - m.node.lineno}", d == 2, f"{m.unit.rel}:{src.lineno}",
+                            "the key is the name component of the pair" if d == 2 else
+                            f"{c.name} uses `{ast.unparse(src.value)}` -- a (name, default) PAIR -- as a key of the call's name-keyed mapping: the test is never true and the "
+                            "entry of the removed parameter stays; a later changer that adds a parameter of that name picks the stale value up (remove `a`, add a new "
+                            "`a=10`: `f(1, 2)` becomes `f(2, 1)`)", function=m.qualname)
+    res.floor("R06.13", "mapping keys read off args_with_defaults", n, 2)
